@@ -64,6 +64,8 @@ class TypeEnv:
                 return ("map", self._p(args[0]), self._p(args[1]))
             if head in ("tuple", "Tuple"):
                 return ("tuple", tuple(self._p(a) for a in args))
+            if head == "arr":
+                return ("arr", self._p(args[0]))
             if head in ("hmap",):   # dict of mutable heap objects (sidecar only): hmap[K, Class]
                 return ("hmap", self._p(args[0]), ast.unparse(args[1]).strip("'\""))
             if head in ("clist",):   # list with a concrete number of items (sidecar only)
@@ -250,6 +252,16 @@ def mk_sym(st, tenv: TypeEnv, t, name: str, depth=0) -> V:
         m = VMap(ref, kt, vt)
         m.default = len(t) > 3
         return m
+    if k == "arr":
+        from .values import VArr
+        ref = st.new_ref()
+        et = elem_type(t[1])
+        n = z3.Int(st.fresh_name(name + ".len"))
+        st.assume(n >= 0)
+        st.heap[(ref, "len")] = n
+        st.heap[(ref, "arr")] = z3.Const(st.fresh_name(name + ".arr"), z3.ArraySort(z3.IntSort(), sort_of_type(et)))
+        st.input_terms[name + ".len"] = n
+        return VArr(ref, et)
     if k == "hmap":
         from .loops import VHMap
         ref = st.new_ref()
